@@ -6,6 +6,7 @@ import Proofs.Parse
 import Proofs.Fuel
 import Proofs.RoundTrip
 import Proofs.Kernels
+import Proofs.KernelRealDec
 
 namespace Asn1.C01
 
@@ -71,6 +72,41 @@ theorem source_oid_roundtrip (arcs : List Nat) (c : Bytes) (h : oidToContent arc
 theorem source_integer_roundtrip (z : Int) :
     ∃ c : Bytes, GenK.toBytes z true 0 = .ok (Kernels.bytesInts c) ∧ intFromBytes c = z :=
   ⟨intToBytes z, Kernels.toBytes_kernel z, intFromBytes_intToBytes z⟩
+
+/-- **binary REAL contents, at the source level**: what the translated body of `RealEncoder.encodeValue` writes for a
+    non-zero mantissa and any exponent (encoding base 2), the translated binary branch of
+    `RealPayloadDecoder.valueDecoder` reads back as a (mantissa, 2, exponent) triple denoting the same number
+    (`realKey` = the normal form with odd mantissa) -/
+theorem source_real_roundtrip (m e : Int) (hm : m ≠ 0) (c : Bytes) (h : realBinToContent m e = some c) :
+    GenK.realBin (if m < 0 then -1 else 1) (m.natAbs : Int) 2 e = .ok (Kernels.bytesInts c) ∧
+    ∃ (fo : UInt8) (rest : Bytes) (p e' : Int), c = fo :: rest ∧
+      GenK.realDec (fo.toNat : Int) (Kernels.bytesInts rest) = .ok [p, 2, e'] ∧
+      realKey (.fin p 2 e') = realKey (.fin m 2 e) := by
+  refine ⟨by rw [Kernels.realBin_kernel m e hm, h]; rfl, ?_⟩
+  obtain ⟨fo, rest, hc, hfo⟩ := Kernels.realBinToContent_head m e c hm h
+  obtain ⟨r, hr, hk⟩ := realFromContent_realBinToContent m e c hm h
+  subst hc
+  have hkey : ∃ p' e', realKey (.fin m 2 e) = .fin p' 2 e' := by
+    simp only [realKey, hm, if_false, if_true]; exact ⟨_, _, rfl⟩
+  obtain ⟨p', e'', hkey⟩ := hkey
+  rw [hkey] at hk
+  cases r with
+  | pinf => simp [realKey] at hk
+  | minf => simp [realKey] at hk
+  | fin p b e' =>
+    have hb2 : b = 2 := by
+      simp only [realKey] at hk
+      split at hk
+      · cases hk
+      · split at hk
+        · assumption
+        · cases hk; rfl
+    subst hb2
+    refine ⟨fo, rest, p, e', rfl, ?_, by rw [hkey]; exact hk⟩
+    rw [Kernels.realDec_kernel fo rest hfo, hr]
+    rfl
+
+example : GenK.realDec 192 [3, 5] = .ok [-5, 2, 3] := by rfl
 
 example : GenK.oidDecode [43, 6, 1, 4, 1, 134, 141, 31] = .ok [1, 3, 6, 1, 4, 1, 99999] := by rfl
 
